@@ -1,10 +1,19 @@
 import CoxeterVerif.Driver.Proto
+import CoxeterVerif.Model.Mutable
 
 namespace OpsC08
 
 /-- driver ops of C08. `none` = unknown op. -/
 def run (α : Type) [Scalar α] [Codec α] (op : String) (c : Ctx) : Option (Rd String) :=
   match op with
+  | "setter.factor" => some do
+      -- in: degree(int) current target ; out: scale factor | E:ValueError
+      let deg ← Rd.nat c
+      let cur : α ← Rd.sc c
+      let tgt : α ← Rd.sc c
+      match Mut.setterFactor deg cur tgt with
+      | .ok k => pure (Out.sc k)
+      | .error e => pure s!"E:{e}"
   | _ => none
 
 end OpsC08
